@@ -83,6 +83,12 @@ func genKnobs(t *core.Tape, kind Kind) simhttp.Knobs {
 	k.DownEOFData = t.Bool(1, 2, "downeofdata")
 	k.AutoFlush = t.Bool(1, 3, "autoflush")
 	k.ExtraHeaders = t.Bool(1, 4, "extrahdr")
+	if kind != KBidi {
+		// a middleware whose ResponseWriter wrapper has no Flush (not for bidi
+		// streams, whose lock-step programs need the handler's messages out
+		// before it returns)
+		k.NoFlusher = t.Bool(1, 6, "noflusher")
+	}
 	// a transport goroutine that is busy for a while after forwarding request
 	// bytes (so it learns late how the request body ended), and an end of
 	// response that follows the handler's return late
